@@ -517,6 +517,9 @@ class Interp:
                 if (b.label is None and e.label is None) or (b.label is not None and b.label != e.label):
                     raise
                 return b.value
+        if k == "Comptime":
+            # a comptime block yields what the same code yields at run time
+            return self.ev(e.e, env)
         if k == "LambdaE":
             return FnV(FnDecl("<lambda>", e.params, e.ret, e.body, e.tail))
         raise TypeError(k)
